@@ -21,7 +21,7 @@ from hypothesis.stateful import RuleBasedStateMachine, initialize, invariant, ru
 
 from vlib import tasks
 from vlib.campaign import Campaign
-from vlib.engine_d import Run, Schedule
+from vlib.engine_d import Run, Schedule, _is_wait
 from vlib.par import run_shards
 from vlib.sched import reference_outcome
 from vlib.spec import core_corpus, dag_spec, features, loop_spec
@@ -193,7 +193,11 @@ def engine_case(c: Campaign, spec: dict[str, Any], mode: str, trust: bool, picks
         rows = [r for r in w.pending() if r["id"] not in {h["id"] for h in handled}]
         if not rows:
             break
-        row = rows[0]
+        # the fairness rule of engine D (DESIGN 2.5): a self re-queuing wait message (CompleteWorkflow / StartStage poll with a
+        # retry count) is delivered only when nothing else is: without real delays it would otherwise burn its retry budget
+        # while the workflow is still making progress
+        busy = [r for r in rows if not _is_wait(r)]
+        row = (busy or rows)[0]
         run.w = w
         run.steps += 1
         steps += 1
